@@ -223,7 +223,7 @@ def run(run, tier, seed, replay_case=None):
     hook = hook and "hook=1" in caps
 
     rng = random.Random(seed * 7919 + 30)
-    nx, nz = (140, 10) if tier == "quick" else (3000, 120)
+    nx, nz = (400, 14) if tier == "quick" else (6000, 160)
     n_env = os.environ.get("VERIF_N")
     if n_env:
         nx = int(n_env)
@@ -250,7 +250,7 @@ def run(run, tier, seed, replay_case=None):
                            model_desc="coq/C30/Model.v (variant %s) vs gc.tpp, src/core/{memory,device}.cpp, "
                                       "src/occa/internal/core/{memory,buffer,device}.cpp in the sharable build" % variant)
         I, R, S = D.eval(cases)
-        prop_fails, corr_breaks = D.judge(cases, I, R, S, proof_failures=proof_failures, max_report=4)
+        prop_fails, corr_breaks = D.judge(cases, I, R, S, proof_failures=proof_failures, max_report=2)
     finally:
         VC.load_known_findings = orig_known
 
